@@ -155,9 +155,13 @@ def _work(item):
         S = F.build(spec)
         n, v = check_complex(S, _CAP)
         F.detour(S)  # a maximal simplex removed and re-added under its ID: same complex, different history
+        F.morph(S)  # a maximal two-node simplex re-pointed: different complex, same counts
         n2, v2 = check_complex(S, 4)
-        v = list(v) + [(m, "[same object re-evaluated after removing and re-adding a maximal simplex] " + msg, ori) for m, msg, ori in v2]
-    return {"n": n + n2, "viols": [(m, msg, ori, kind, spec) for m, msg, ori in v]}
+        F.grow(S)  # a new simplex with a fresh ID
+        n3, v3 = check_complex(S, 3)
+        v = list(v) + [(m, "[same object re-evaluated after in-place edits (re-added simplex, re-pointed edge)] " + msg, ori) for m, msg, ori in v2]
+        v += [(m, "[same object re-evaluated after a further simplex was added] " + msg, ori) for m, msg, ori in v3]
+    return {"n": n + n2 + n3, "viols": [(m, msg, ori, kind, spec) for m, msg, ori in v]}
 
 
 def family(tier):
